@@ -42,7 +42,16 @@ pub fn write_cursor(shapes: &[Shape], explicit_finalize: bool) -> Result<(Vec<u8
     }
 }
 
+/// files that already exist at the path, longer than anything written in a case: a writer
+/// created by path must replace them (C02: no trailing bytes)
+pub fn prepopulate(path: &Path) {
+    let junk: Vec<u8> = (0..200_000u32).map(|i| (i % 251) as u8).collect();
+    let _ = std::fs::write(path, &junk);
+    let _ = std::fs::write(path.with_extension("shx"), &junk[..50_000]);
+}
+
 pub fn write_path(shapes: &[Shape], path: &Path) -> Result<(), String> {
+    prepopulate(path);
     let r = guarded(|| {
         let mut w = ShapeWriter::from_path(path).map_err(|e| format!("{:?}", e))?;
         write_all_shapes(&mut w, shapes).map_err(|e| format!("{:?}", e))
